@@ -69,12 +69,32 @@ pub struct GenOpts {
     pub max_n: usize,
     pub max_s: usize,
     pub reconverge: bool, // few base states, many paths (C09)
-    pub dom_friendly: bool,
-    pub few_dead_arcs: bool, // some base states are degraded copies of others (so that simulation dominance has pairs)
+    pub dom_friendly: bool, // some base states are degraded copies of others (so that simulation dominance has pairs)
+    pub few_dead_arcs: bool,
+    /// share (in quarters) of knapsack-shaped tables (base state = capacity used; heavy re-convergence, many layers)
+    pub knapsack_quarters: u64,
 }
 
 impl Table {
+    /// a 0/1 knapsack written as a table: base state = capacity already used (root = 0), decision 1 = take the item
+    pub fn generate_knapsack(rng: &mut Rng, o: GenOpts) -> Table {
+        let n = 5 + rng.below(if o.max_n >= 8 { 5 } else { 3 });
+        let cap = 6 + rng.below(9);
+        let s = cap + 1;
+        let d = 2;
+        let mut next = vec![vec![vec![None; d]; s]; n];
+        let mut cost = vec![vec![vec![0isize; d]; s]; n];
+        for l in 0..n {
+            let w = 1 + rng.below(5); let p = 1 + rng.below(12) as isize;
+            for used in 0..s { next[l][used][0] = Some(used as u8); if used + w <= cap { next[l][used][1] = Some((used + w) as u8); cost[l][used][1] = p; } }
+        }
+        let mut order: Vec<usize> = (0..n).collect();
+        if rng.chance(1, 2) { for i in (1..n).rev() { let j = rng.below(i + 1); order.swap(i, j); } }
+        let rub = match rng.below(3) { 0 => Rub::None, 1 => Rub::Exact, _ => Rub::Slack(1 + rng.below(4) as isize) };
+        Table { n, s, d, next, cost, v0: 0, order, depth_in_state: !o.depth_free, irrelevant: vec![vec![false; s]; n], rub, pot: None, rank_seed: rng.next() }
+    }
     pub fn generate(rng: &mut Rng, o: GenOpts) -> Table {
+        if o.knapsack_quarters > 0 && !o.long_arcs && rng.chance(o.knapsack_quarters, 4) { return Table::generate_knapsack(rng, o); }
         let max_n = if o.max_n == 0 { 7 } else { o.max_n };
         let max_s = if o.max_s == 0 { 6 } else { o.max_s };
         // swarm: a quarter of the instances are tiny, the rest is biased towards many layers and many base states
